@@ -114,7 +114,7 @@ def gen_antenna(rng, families=None, max_pulses=25, ground=None, len_jitter=(0.7,
         # (elevated): direction cosines that are exactly 0 / 1, positions that are not
         k = rng.choice([2, 2, 3])
         ax = rng.choice([2, 2, 0, 1]) if not ground else rng.choice([2, 0, 1])
-        n = rng.randint(5, 9)
+        n = rng.randint(4, 6)
         for j in range(k):
             c = np.array([rng.uniform(-0.3, 0.3) * lam, rng.uniform(-0.3, 0.3) * lam, 0.0])
             c[(ax + 1) % 3] += j * seg * rng.uniform(4, 9)
